@@ -42,7 +42,8 @@ type BatchResult struct {
 	Panics       int64
 }
 
-const maxWitnessPerBatch = 8
+const maxWitnessPerBatch = 64
+const maxWitnessPerClass = 3
 
 func newCase(m *Monitor, tier string, seed, i int64) *Case {
 	return &Case{Prop: m.ID, Tier: tier, Seed: seed, I: i, R: NewRng(seed, m.ID+"/"+tier, i)}
@@ -160,7 +161,8 @@ func RunWorker(m *Monitor, tier string, seed, a, b int64, out string) error {
 			if stack != "" {
 				res.Panics++
 			}
-			if len(res.Violations) < maxWitnessPerBatch {
+			// witnesses are kept per class, so that a frequent (e.g. known) class cannot crowd out a rare one
+			if res.ByClass[c.class] <= maxWitnessPerClass && len(res.Violations) < maxWitnessPerBatch {
 				res.Violations = append(res.Violations, witnessOf(c, stack))
 			}
 		}
